@@ -63,6 +63,8 @@ pub trait Lk {
 		f: Body<'_, 's>,
 	) -> Result<(), KeyArg<'k>>;
 	fn debug(&self) -> String;
+	/// `write!(out, "{:?}", self)` into a caller-supplied sink (which may fail part way)
+	fn debug_to(&self, out: &mut dyn std::fmt::Write) -> std::fmt::Result;
 	fn is_retry(&self) -> bool {
 		false
 	}
@@ -393,6 +395,9 @@ impl Lk for M {
 	fn debug(&self) -> String {
 		format!("{:?}", self)
 	}
+	fn debug_to(&self, out: &mut dyn std::fmt::Write) -> std::fmt::Result {
+		write!(out, "{:?}", self)
+	}
 }
 
 impl Lk for R {
@@ -446,6 +451,9 @@ impl Lk for R {
 	fn debug(&self) -> String {
 		format!("{:?}", self)
 	}
+	fn debug_to(&self, out: &mut dyn std::fmt::Write) -> std::fmt::Result {
+		write!(out, "{:?}", self)
+	}
 }
 
 fn split<G>(r: PoisonResult<G>) -> (G, bool) {
@@ -495,6 +503,9 @@ impl Lk for PM {
 	}
 	fn debug(&self) -> String {
 		format!("{:?}", self)
+	}
+	fn debug_to(&self, out: &mut dyn std::fmt::Write) -> std::fmt::Result {
+		write!(out, "{:?}", self)
 	}
 }
 
@@ -572,6 +583,9 @@ impl Lk for PR {
 	fn debug(&self) -> String {
 		format!("{:?}", self)
 	}
+	fn debug_to(&self, out: &mut dyn std::fmt::Write) -> std::fmt::Result {
+		write!(out, "{:?}", self)
+	}
 }
 
 macro_rules! accessors_impl {
@@ -624,6 +638,9 @@ macro_rules! lk_vec_m {
 			}
 			fn debug(&self) -> String {
 				format!("{:?}", self)
+			}
+			fn debug_to(&self, out: &mut dyn std::fmt::Write) -> std::fmt::Result {
+				write!(out, "{:?}", self)
 			}
 			fn is_retry(&self) -> bool {
 				$retry
@@ -692,6 +709,9 @@ macro_rules! lk_vec_r {
 			}
 			fn debug(&self) -> String {
 				format!("{:?}", self)
+			}
+			fn debug_to(&self, out: &mut dyn std::fmt::Write) -> std::fmt::Result {
+				write!(out, "{:?}", self)
 			}
 			fn is_retry(&self) -> bool {
 				$retry
@@ -782,6 +802,9 @@ macro_rules! lk_dyn {
 			}
 			fn debug(&self) -> String {
 				format!("{:?}", self)
+			}
+			fn debug_to(&self, out: &mut dyn std::fmt::Write) -> std::fmt::Result {
+				write!(out, "{:?}", self)
 			}
 			fn is_retry(&self) -> bool {
 				$retry
@@ -892,5 +915,8 @@ impl<'a, 'b> Lk for Poisonable<BoxedLockCollection<Vec<Member<'a, 'b>>>> {
 	}
 	fn debug(&self) -> String {
 		format!("{:?}", self)
+	}
+	fn debug_to(&self, out: &mut dyn std::fmt::Write) -> std::fmt::Result {
+		write!(out, "{:?}", self)
 	}
 }
